@@ -291,7 +291,8 @@ def _cleanup_first(ctx):
     ctx.check(ok, "C10.D4", "cleanup-tolerates-only-FreeNodeNotFound", site(b), ok="only FreeNodeNotFound is ignored", bad="the cleanup result is not compared with FreeNodeNotFound")
 
 
-QUANT = ("any", "all", "find", "find_map", "position", "filter", "count", "fold", "try_fold", "min", "max", "last", "nth", "take", "skip", "first", "get", "next")
+# quantifier-changing or element-dropping calls; other existential spellings (find(..).is_some(), filter(..).count() > 0) are not judged
+QUANT = ("any", "all", "min", "max", "last", "nth", "take", "skip", "first", "step_by", "take_while", "skip_while")
 
 
 def _existential_guards(ctx):
@@ -330,7 +331,9 @@ def _existential_guards(ctx):
                     calls.append((d.rsplit("::", 1)[-1], x, bb))
         if term is not None:
             calls.append(("any", b, 0))
-        anys = [c for c in calls if c[0] == "any"]
+        anys = [c for c in calls if c[0] in ("any", "flat_map", "flatten")]
         others = [c for c in calls if c[0] in QUANT and c[0] not in ("any", "next")]
+        if not any(c[0] == "any" for c in calls):
+            others.append(("no-any", b, 0))
         ctx.check(len(anys) >= 2 and not others, "C10.D1", "existential:%s" % label, site(others[0][1], others[0][2]) if others else site(b), ok="any(any(non-empty)) over chunks and halves",
                   bad="the migration-running test in %s is not an existential over all chunk halves (quantifiers used: %s): a migration with one busy half can be taken for idle and a scaling request accepted" % (label, sorted({c[0] for c in calls})))
